@@ -30,7 +30,9 @@ var DefaultNames = []string{"a", "b", "c", "a", "b", "d", "child", "self", "text
 	// names that read like numbers to a careless parser
 	"nan", "inf", "Infinity", "NaN", "e1", "x10"}
 var DefaultValues = []string{"", "1", "2", "3", "10", "9", " 12 ", "1e3", "+1", "-0", "-5", "NaN", "Infinity", "0x10", ".5", "5.", "abc", "b", "é€", "x y", "2.5", "007", "-2.50", "\t4\n"}
-var NumericValues = []string{"1", "2", "3", "10", "9", "2.5", "-1", "0", "100", "0.5", " 7 ", "abc", ""}
+var NumericValues = []string{"1", "2", "3", "10", "9", "2.5", "-1", "0", "100", "0.5", " 7 ", "abc", "", "1", "2", "3", "10", "9", "2.5", "-1", "0",
+	// a numeral beyond the double range: +Infinity as a number, and a perfectly ordinary string
+	"1000000000000000000000000000000000000000000000000000000000000000000000000000000000000000000000000000000000000000000000000000000000000000000000000000000000000000000000000000000000000000000000000000000000000000000000000000000000000000000000000000000000000000000000000000000000000000000000000000000000000000000000000000"}
 
 // "urn:xa-" + "b" spells the same as "urn:x" + "a-b": expanded names are pairs, not concatenations
 var uris = []string{"urn:x", "urn:y", "urn:x", "urn:y", "urn:xa-"}
